@@ -290,7 +290,13 @@ func checkC16(c *Ctx) {
 				}
 			}
 			rs.Check(len(miss) == 0, save.Name(), "fallback Create guard", call.Pos(), "only after an update that matched nothing, without error, not in DryRun, without user selection", "Save's insert fallback is not guarded by: "+strings.Join(miss, ", "), "facts: "+strings.Join(facts.List(), ", "))
-			rs.Check(hasUpdateAll(call), save.Name(), "fallback Create is an update-all upsert", call.Pos(), "OnConflict{UpdateAll: true}", "Save's insert fallback is a plain Create: saving an existing key would fail instead of storing the full value")
+			upAll := false
+			for _, nd := range chainNodes(save, call) {
+				if hasUpdateAll(nd) {
+					upAll = true
+				}
+			}
+			rs.Check(upAll, save.Name(), "fallback Create is an update-all upsert", call.Pos(), "OnConflict{UpdateAll: true}", "Save's insert fallback is a plain Create: saving an existing key would fail instead of storing the full value")
 		}
 		rs.Check(nFallback > 0, save.Name(), "fallback exists", save.Body.Pos(), "update-then-upsert fallback present", "Save has no insert fallback")
 		// slice arm: adds OnConflict{UpdateAll:true} unless user supplied ON CONFLICT
